@@ -140,8 +140,16 @@ class SimWriter:
             self.closed = True
             if self.link.alive:
                 self.link.fifo[self.side].append(EOF)
-            # transport.close() -> connection_lost -> own reader sees EOF, senders waiting in drain() are woken
-            self.loop.call_soon(self.link.readers[self.side].feed_eof)
+            # transport.close() -> (next loop iteration) connection_lost -> own reader sees EOF, THEN wait_closed() returns;
+            # senders waiting in drain() are woken. As in asyncio, whoever awaits wait_closed() is suspended until then and the
+            # endpoint's reader task, woken first, runs before it
+            self._closed_fut = self.loop.create_future()
+
+            def _lost():
+                self.link.readers[self.side].feed_eof()
+                if not self._closed_fut.done():
+                    self._closed_fut.set_result(None)
+            self.loop.call_soon(_lost)
             ws, self.drain_waiters = self.drain_waiters, []
             self.paused = False
             for f in ws:
@@ -152,6 +160,9 @@ class SimWriter:
         return self.closed
 
     async def wait_closed(self):
+        f = getattr(self, "_closed_fut", None)
+        if f is not None:
+            await f
         return None
 
     def get_extra_info(self, name, default=None):
